@@ -8,6 +8,7 @@ res = {}
 for name in sorted(os.listdir(root)):
     if not name.startswith(pref): continue
     d = os.path.join(root, name)
+    if not os.path.isdir(d): continue
     meta = json.load(open(os.path.join(d, "meta.json")))
     if meta.get("neutralised_by_fix"):
         print("%-8s skipped (neutralised by fix %s)" % (name, meta["neutralised_by_fix"])); continue
@@ -27,4 +28,4 @@ for name in sorted(os.listdir(root)):
     print("%-8s exit=%d %.0fs %s" % (name, p.returncode, time.time() - t0, "; ".join(sigs)[:200]), flush=True)
 missed = [n for n, r in res.items() if r != 1]
 print("caught %d of %d; not caught: %s" % (len(res) - len(missed), len(res), missed))
-json.dump(res, open("/verif/seeded/last_run.json", "w"), indent=1)
+json.dump({"results": res, "summary": "caught %d of %d runnable; not caught: %s" % (len(res) - len(missed), len(res), missed)}, open("/verif/seeded/last_run.json", "w"), indent=1)
